@@ -444,10 +444,12 @@ tfpdeftests:
 	}
 |	tfpdeftests ',' tfpdeftest
 	{
+		// keyword-only parameters: one entry per parameter,
+		// nil for a parameter without default (as CPython's
+		// kw_defaults), so that each default stays with its
+		// own parameter
 		$$ = append($$, $3)
-		if $<expr>3 != nil {
-			$<exprs>$ = append($<exprs>$, $<expr>3)
-		}
+		$<exprs>$ = append($<exprs>$, $<expr>3)
 	}
 
 tfpdeftests1:
@@ -537,10 +539,12 @@ vfpdeftests:
 	}
 |	vfpdeftests ',' vfpdeftest
 	{
+		// keyword-only parameters: one entry per parameter,
+		// nil for a parameter without default (as CPython's
+		// kw_defaults), so that each default stays with its
+		// own parameter
 		$$ = append($$, $3)
-		if $<expr>3 != nil {
-			$<exprs>$ = append($<exprs>$, $<expr>3)
-		}
+		$<exprs>$ = append($<exprs>$, $<expr>3)
 	}
 
 vfpdeftests1:
